@@ -33,12 +33,12 @@ BUDGET = {"quick": 400, "thorough": 3000}
 
 
 def cases(tier, seed):
-    n = 20 if tier == "quick" else 200
+    n = 20 if tier == "quick" else 600
     out = [{"sub": "classical", "i": i} for i in range(n)]
-    out += [{"sub": "vqe", "i": i} for i in range(12 if tier == "quick" else 150)]
+    out += [{"sub": "vqe", "i": i} for i in range(12 if tier == "quick" else 450)]
     # directed: high-spin references under the symmetry-conserving encoding (its spin-parity argument matters only when spin//2 is odd)
-    out += [{"sub": "vqe", "i": 10000 + i, "force": "triplet_scbk"} for i in range(3 if tier == "quick" else 30)]
-    out += [{"sub": "pad", "i": i} for i in range(10 if tier == "quick" else 100)]
+    out += [{"sub": "vqe", "i": 10000 + i, "force": "triplet_scbk"} for i in range(3 if tier == "quick" else 90)]
+    out += [{"sub": "pad", "i": i} for i in range(10 if tier == "quick" else 300)]
     return out
 
 
